@@ -3915,7 +3915,8 @@ class TLSConnection(TLSRecordLayer):
         heartbeat_ext = clientHello.getExtension(ExtensionType.heartbeat)
         if heartbeat_ext:
             if heartbeat_ext.mode == HeartbeatMode.PEER_ALLOWED_TO_SEND:
-                if settings.heartbeat_response_callback:
+                if settings.heartbeat_response_callback and \
+                        settings.use_heartbeat_extension:
                     self.heartbeat_can_send = True
                     self.heartbeat_response_callback = settings.\
                         heartbeat_response_callback
@@ -3926,8 +3927,10 @@ class TLSConnection(TLSRecordLayer):
                         AlertDescription.illegal_parameter,
                         "Received invalid value in Heartbeat extension"):
                     yield result
-            self.heartbeat_supported = True
-            self.heartbeat_can_receive = True
+            # the extension is negotiated only if we acknowledge it
+            if settings.use_heartbeat_extension:
+                self.heartbeat_supported = True
+                self.heartbeat_can_receive = True
 
         size_limit_ext = clientHello.getExtension(
             ExtensionType.record_size_limit)
@@ -4120,7 +4123,7 @@ class TLSConnection(TLSRecordLayer):
 
                 heartbeat_ext = clientHello.getExtension(
                     ExtensionType.heartbeat)
-                if heartbeat_ext:
+                if heartbeat_ext and settings.use_heartbeat_extension:
                     if heartbeat_ext.mode == HeartbeatMode.PEER_ALLOWED_TO_SEND:
                         self.heartbeat_can_send = True
                     elif heartbeat_ext.mode == \
